@@ -101,6 +101,7 @@ impl Scenario for GwScenario {
                     "yield_seed": r.next_u64() >> 12, "perm_seed": r.next_u64() >> 12,
                     "check_close": r.chance(1, 2),
                     "send_style": if r.chance(1, 2) { "tasks" } else { "seqjoin" },
+                    "poison": if r.chance(1, 6) { json!(r.below(total)) } else { Value::Null },
                 });
                 let ks: Vec<_> = if ps(&c, "pattern") == "ring" {
                     (0..3).map(|s| ("mpc".to_string(), 0, s, (s + 1) % 3, g, shard)).collect()
@@ -258,8 +259,10 @@ fn gw_exec(p: &Value, explicit: Option<Vec<u32>>) -> RunRes {
         let c = &channels[*k % channels.len()];
         let size = pu(c, "size");
         let tag = chan_tag(*k);
+        let poisoned = ps(c, "pattern") != "ring" && c.get("poison").and_then(Value::as_u64) == Some(*i as u64);
         match r {
-            Ok(b) if b[..] == payload(tag, *i as u64, size)[..] => {}
+            Ok(b) if !poisoned && b[..] == payload(tag, *i as u64, size)[..] => {}
+            Err(_) if poisoned => {}
             Ok(b) => {
                 return RunRes::violation("gw_wrong_value",
                     format!("channel {k} ({}) receive({i}) returned {b:02x?}, expected {:02x?}", c, payload(tag, *i as u64, size)),
@@ -316,6 +319,10 @@ fn gw_exec(p: &Value, explicit: Option<Vec<u32>>) -> RunRes {
     res
 }
 
+fn mk<N: ArrayLength>(tag: u64, i: usize, poison: Option<usize>) -> Raw<N> {
+    if poison == Some(i) { Raw::<N>::from_slice(&vec![crate::verif::msg::POISON; N::USIZE]) } else { Raw::<N>::tagged(tag, i as u64) }
+}
+
 pub fn chan_tag(k: usize) -> u64 {
     1000 + k as u64
 }
@@ -356,6 +363,8 @@ where
     let check_close = pb(c, "check_close");
     let tag = chan_tag(k);
     let window = NonZeroUsize::new(ch_active).unwrap();
+    // one record of a one-way channel may be sent as bytes that do not decode: its receive fails, the others are unaffected
+    let poison: Option<usize> = c.get("poison").and_then(Value::as_u64).map(|x| x as usize);
 
     if kind == "shard" {
         let helper = pu(c, "helper");
@@ -376,7 +385,7 @@ where
                     for _ in 0..yields_for(yield_seed, i) {
                         shuttle::future::yield_now().await;
                     }
-                    if let Err(e) = tx.send(RecordId::from(i), Raw::<N>::tagged(tag, i as u64)).await {
+                    if let Err(e) = tx.send(RecordId::from(i), mk::<N>(tag, i, poison)).await {
                         log2.lock().unwrap().send_err.push((k, i, e.to_string()));
                     }
                 }));
@@ -487,7 +496,7 @@ where
                         for _ in 0..yields_for(yield_seed, i) {
                             shuttle::future::yield_now().await;
                         }
-                        if let Err(e) = tx.send(RecordId::from(i), Raw::<N>::tagged(tag, i as u64)).await {
+                        if let Err(e) = tx.send(RecordId::from(i), mk::<N>(tag, i, poison)).await {
                             log.lock().unwrap().send_err.push((k, i, e.to_string()));
                         }
                     }));
@@ -514,7 +523,7 @@ where
                 for _ in 0..yields_for(yield_seed, i) {
                     shuttle::future::yield_now().await;
                 }
-                if let Err(e) = tx.send(RecordId::from(i), Raw::<N>::tagged(tag, i as u64)).await {
+                if let Err(e) = tx.send(RecordId::from(i), mk::<N>(tag, i, poison)).await {
                     log2.lock().unwrap().send_err.push((k, i, e.to_string()));
                 }
             }));
